@@ -49,7 +49,8 @@ Pick(S) == IF Sim THEN {RandomElement(S)} ELSE S
 RootScale(rt) == << 0, -20, 12, -3 >>[((Len(rt.pts) + (IF rt.fc THEN 1 ELSE 0) + rt.tolU) % 4) + 1]
 
 Init == /\ root \in Roots /\ d = WholeRoot(Built(root.pts, 0, root.fc, 2)) /\ phase = "run"
-        /\ hist = <<[m |-> "curve", op |-> "root", pts |-> root.pts, fc |-> root.fc, sc |-> RootScale(root), tolU |-> root.tolU]>>
+        /\ hist = <<[m |-> "curve", op |-> "root", pts |-> root.pts, fc |-> root.fc, sc |-> RootScale(root), tolU |-> root.tolU,
+                   nz |-> (Len(root.pts) % 2)]>>        \* nz = 1: every zero arc length of the history is handed over as -0.0
 
 \* a derived curve that is closed only because an open root touches itself is left out of the histories
 Tame(nd) == nd = NoCurve \/ (DClosed(V, RC, nd) => (RC /\ nd.T = RootLen2(V)))
